@@ -1067,7 +1067,8 @@ def r9_named_value(a, tier):
         fn = a.ct.lookup(CTX, pname)
         if fn is None:
             continue
-        state = _Rec('state')
+        # ParseState.append / extend hand the node back (tatsu/contexts/state.py)
+        state = _Rec('state', results={'append': lambda interp, node, *x: node, 'extend': lambda interp, node, *x: node})
         cursor = _Rec('cursor')
 
         class _A(dict):
